@@ -125,6 +125,7 @@ type Exec struct {
 	vacuityAt  int // index into events after the root's requires were assumed
 	carve      map[string]Term
 	inputs     []string
+	fmtHyp     []Term // hypotheses under which the verb/operand obligations are stated (fmtwhen)
 }
 
 func (x *Exec) unsupported(format string, a ...any) {
